@@ -23,23 +23,30 @@ Qed.
 Lemma sched_live_tail : forall e s, sched_live (e :: s) = true -> sched_live s = true.
 Proof. intros e s H. unfold sched_live in *. cbn in H. apply andb_true_iff in H. tauto. Qed.
 
+(* the next scheduled event makes at least one byte available *)
+Definition avail_head (i : io) : bool :=
+  match io_sched i with RAvail k :: _ => 1 <=? k | _ => false end.
+
 Lemma reader_live : forall n i, sched_live (io_sched i) = true -> 0 < n ->
   exists r i' tag, reader n i = (r, i', tag) /\ sched_live (io_sched i') = true /\
-  ((r = RRAgain /\ io_stream i' = io_stream i) \/
+  io_sched i' = tl (io_sched i) /\
+  ((r = RRAgain /\ io_stream i' = io_stream i /\ (avail_head i = true -> io_stream i = [])) \/
    (exists m, 0 < m /\ m <= n /\ m <= zlen (io_stream i) /\
       r = RRData (firstn (Z.to_nat m) (io_stream i)) /\ io_stream i' = skipn (Z.to_nat m) (io_stream i))).
 Proof.
-  intros n [s sc] Hl Hn. cbn [io_sched io_stream] in *. unfold reader. cbn [io_sched io_stream].
+  intros n [s sc] Hl Hn. cbn [io_sched io_stream] in *. unfold reader, avail_head. cbn [io_sched io_stream].
   destruct sc as [|e sc'].
-  - do 3 eexists. split; [reflexivity|]. split; [assumption|]. left. split; reflexivity.
+  - do 3 eexists. split; [reflexivity|]. split; [assumption|]. split; [reflexivity|]. left. repeat split. discriminate.
   - pose proof (sched_live_tail _ _ Hl) as Hl'. destruct e; cbn in Hl; try discriminate.
     + set (nret := Z.min (Z.max k 0) (Z.min (zlen s) n)).
       destruct (nret <=? 0) eqn:E.
-      * destruct (n =? 0) eqn:E0; [lia|]. do 3 eexists. split; [reflexivity|]. cbn [io_sched io_stream].
-        split; [assumption|]. left. split; reflexivity.
-      * do 3 eexists. split; [reflexivity|]. cbn [io_sched io_stream]. split; [assumption|]. right.
-        exists nret. subst nret. repeat split; try lia. 
-    + do 3 eexists. split; [reflexivity|]. cbn [io_sched io_stream]. split; [assumption|]. left. split; reflexivity.
+      * destruct (n =? 0) eqn:E0; [lia|]. do 3 eexists. split; [reflexivity|]. cbn [io_sched io_stream tl].
+        split; [assumption|]. split; [reflexivity|]. left. repeat split.
+        intro Hk. apply Z.leb_le in Hk. apply zlen_0_nil. pose proof (zlen_nonneg _ s). subst nret. lia.
+      * do 3 eexists. split; [reflexivity|]. cbn [io_sched io_stream tl]. split; [assumption|]. split; [reflexivity|]. right.
+        exists nret. subst nret. repeat split; try lia.
+    + do 3 eexists. split; [reflexivity|]. cbn [io_sched io_stream tl]. split; [assumption|]. split; [reflexivity|].
+      left. repeat split. discriminate.
 Qed.
 
 (* ---------------- ghost view of a conversation frame ---------------- *)
